@@ -21,7 +21,8 @@ CLAIMED = {
              'in ARM state (~300 events) is judged by TLC on the complete state.',
         note='exhaustive for the implementation\'s class selection; agreement between the spec\'s decode and each cube is '
              'decided on sampled members (quick ~25k words, thorough ~10^6), not on all 2^32 words; families Decode.tla marks '
-             'Unspec (coprocessor, exclusives, memory hints, banked MRS/MSR, Advanced SIMD) are judged by outcome class only; '
+             'Unspec (CP14/CP15 and VFP/Advanced SIMD coprocessor space, SWP, memory hints, barriers, banked MRS/MSR) are judged by '
+             'outcome class only; '
              'operand extraction is observed through behaviour (a wrong operand changes the post-state for some member).',
         technique='TLC-checked TLA+ decode specification + exhaustive cube partition of the decoder + TLC trace validation',
         ref='DESIGN.md §4 C06'),
@@ -139,11 +140,12 @@ CLAIMED = {
 
     'C02': dict(
         text='ISA.tla!ExecLS/ExecLSD specify LDR/STR/LDRB/STRB/LDRH/STRH/LDRSB/LDRSH/LDRD/STRD (immediate, register, literal, '
-             'unprivileged T forms) for ARM, 16-bit and 32-bit Thumb on top of Mem.tla (MemU/MemA, endianness, alignment '
+             'unprivileged T forms) and ExecLDREX/ExecSTREX the exclusive forms (B/H/word/D) for ARM, 16-bit and 32-bit Thumb on top of Mem.tla (MemU/MemA, endianness, alignment '
              'policy); random words x P/U/W x registers x base addresses in RAM, at 0xFFFFFFxx and wrapping x alignment 0..3 x '
              'CPSR.E x SCTLR.A/U x arch 6/7 are executed by emulate_cycle() and the full post-state (registers, write-back, '
              'every memory byte, abort bookkeeping) is judged by TLC.',
-        note='sampled operands; exclusive loads/stores are not specified yet (envelope only); UNKNOWN results of pre-v7 '
+        note='sampled operands; exclusive stores are specified as the emulator\'s stub monitors behave (checks, no store, status 1: '
+             'a permitted outcome; success is not modelled); SWP/SWPB are envelope-only; UNKNOWN results of pre-v7 '
              'unaligned accesses are don\'t-care; word stores of SP through the T32 imm8 form are treated as unsure.',
         technique='TLA+ machine specification + TLC trace validation of recorded emulate_cycle() events',
         ref='DESIGN.md §4 C02'),
